@@ -744,6 +744,16 @@ func TestPlanIndependence(t *testing.T) {
 			if insertOnly {
 				c.Label("open-tx-insert-only")
 			}
+			if dbg := os.Getenv("C11_DEBUG_TX_SQL"); dbg != "" { // investigation aid for replays: extra queries inside the open transaction
+				for _, qs := range strings.Split(dbg, ";;") {
+					r, err := tx.Query(qs, nil)
+					if err != nil {
+						fmt.Printf("DEBUG-TX %s\n   ERROR %v\n", qs, err)
+					} else {
+						fmt.Printf("DEBUG-TX %s\n   index=%s rows=%d %q\n", qs, r.Index, len(r.Rows), r.Keys())
+					}
+				}
+			}
 			for qi, q := range queries {
 				if q.From.Period != "" || q.From.History || spillSkip(q, wopts) {
 					continue
